@@ -79,6 +79,15 @@ fn exec_inner(verb: &str, items: &[Sexp], o: &mut Oracle) -> Option<String> {
             match write_msg(proto, &name, mt, seq) {
                 Ok((b, len)) => {
                     if len != b.len() { o.fail("C04", format!("message_begin_len {} != written {}", len, b.len())); }
+                    if proto != Proto::UBin {
+                        match write_msg_linked(proto, &name, mt, seq) {
+                            Ok((lbb, lblen)) => {
+                                if lbb != b { o.fail("C01,C03", format!("message envelope through the LinkedBytes writer {} differs from the BytesMut writer {}", hex(&lbb), hex(&b))); }
+                                if lblen != lbb.len() { o.fail("C04", format!("LinkedBytes writer: message_begin_len {} != written {}", lblen, lbb.len())); }
+                            }
+                            Err(e) => o.fail("C01", format!("message envelope through the LinkedBytes writer failed: {}", e)),
+                        }
+                    }
                     match read_msg(proto, &b) {
                         Ok((n2, mt2, seq2, rem)) if n2 == name && mt2 == mt && seq2 == seq && rem == 0 => {}
                         other => o.fail("C01,C03", format!("message envelope read back {:?}", other.map_err(|e| e.to_string()))),
@@ -156,9 +165,20 @@ pub fn gen(stream: &str, tier: &str, seed: u64, out: &mut dyn Write) -> bool {
                 let vals: Vec<Val> = (0..k).map(|_| gen::gen_any(&mut r, 5)).collect();
                 emit(&vals, &mut r, false);
             }
+            // the runtime's own Message impl (ApplicationException) through size / encode / decode / decode_async, at top level and
+            // nested as a struct field under ids on both sides of the compact short-delta window
+            for p in [Proto::Bin, Proto::Le, Proto::Cmp] { for b in ["bm", "lb1"] {
+                for (mi, m) in [&b""[..], b"x", b"general remote error", &[b'e'; 200][..], &[b'z'; 5000][..]].iter().enumerate() {
+                    for (ki, kind) in [0i32, 1, 6, 10, -1, i32::MIN].iter().enumerate() {
+                        if (mi + ki) % 2 == 1 && !thorough { continue; }
+                        let _ = writeln!(out, "axm {} {} {} {} -", p.name(), b, hex(m), kind);
+                        for oid in [2i16, 5, 16, 200, 32766, -3] { if (mi + ki + (oid as i32 + 40000) as usize) % 3 == 0 || thorough { let _ = writeln!(out, "axm {} {} {} {} {}", p.name(), b, hex(m), kind, oid); } }
+                    }
+                }
+            } }
             for _ in 0..n(40, 400) {
                 let name: Vec<u8> = (0..r.below(12)).map(|_| b'a' + r.below(26) as u8).collect();
-                let seq = match r.below(4) { 0 => 0, 1 => i32::MAX, 2 => i32::MIN, _ => r.next() as i32 };
+                let seq = match r.below(6) { 0 => 0, 1 => i32::MAX, 2 => i32::MIN, 3 => -1, 4 => -(r.below(300) as i32), _ => r.next() as i32 };
                 let _ = writeln!(out, "m {} {} {} {}", r.pick(&protos).name(), hex(&name), 1 + r.below(4), seq);
             }
         }
